@@ -929,6 +929,14 @@ func (c *compiler) compile(tok *token) []instruction {
 		// if getStruct == codeLocalGet {
 		// 	setStruct = codeLocalSet
 		// }
+		if ts == "interface" || ts == "struct" {
+			// a struct or interface type is stored when its declaration runs; what an earlier
+			// load left in the slot at compile time (type T int, before a reload made T a
+			// struct) must not be read as this type's definition
+			if c.Globals.Read(idx).t == typeType {
+				c.Globals.Write(idx, Value{})
+			}
+		}
 		if ts == "interface" {
 			res = append(res, instruction{Code: codeStruct, A: 0})
 			res = append(res, instruction{Code: setStruct, A: reg(idx)})
